@@ -714,6 +714,10 @@ pub fn run(tier: Tier) -> i32 {
             }
         }
     }
+    // slow path (63 % responsive): one of the three live nodes loses all traffic for two seconds,
+    // everything stalls, and only the standstill bundles can bring it back (shared with C18)
+    let slow_path_loss = if crate::common::replay_req().is_some() { Vec::new() } else { crate::c07_c08_c18::whole_node_loss_recovery_for(&report, tier, "C02", true) };
+    evals.fetch_add(slow_path_loss.len(), std::sync::atomic::Ordering::Relaxed);
     let deviation = deviation_part.join().unwrap_or_else(|_| crate::common::machinery_failure("C02 deviation sweep thread panicked"));
     let ((live, live_states, live_transitions, live_completions, live_traces), obligations) =
         bfs_part.join().unwrap_or_else(|_| crate::common::machinery_failure("C02 exploration thread panicked"));
@@ -733,6 +737,7 @@ pub fn run(tier: Tier) -> i32 {
         "inconclusive": *inconclusive.lock().unwrap(),
         "liveness_from_explored_prefixes": live,
         "single_node_vote_obligations": obligations,
+        "slow_path_loss_and_recovery_runs": slow_path_loss,
         "whole_node_deviation_sweep": deviation,
         "whole_node_deviation_rule": "4 real nodes on a timely network; the default schedule delivers every packet after 1 ms, a deviation delays the k-th routed consensus packet of the run by one of the listed amounts; every k in the first half of the run (quick: every 23rd) x every amount is executed; the run must keep finalizing (within one window per 1.6 s of delay of the undisturbed run), no task may die, and a delay below DELTA must not get any slot skipped",
         "byzantine_previous_leader_handover_runs": handover_runs,
